@@ -167,4 +167,24 @@ def rtBuiltin (f : Name) (pos : List Rt) (kw : List (Name × Rt)) : Option (List
     | _ => some [.err]
   else none
 
+
+/-! ### call statements (`exec_AssignFunctionCall`) -/
+
+/-- `for assignee, res in zip(assignees, results): context[assignee] = res` -/
+def assignZip (ρ : Name → Rt) : List Name → List Rt → (Name → Rt)
+  | x :: xs, r :: rs => assignZip (fun y => if y = x then r else ρ y) xs rs
+  | _, _ => ρ
+
+/-- what the interpreter stores for `assignees <- f(args, kw)`: nothing for no assignee; for ONE
+    assignee the whole result - the value of a single-result function, the TUPLE (`Rt.none`: a value
+    without a kind) of a multi-result one; otherwise `assert len(results) == len(assignees)` (a failed
+    assertion stores nothing) and the results one by one -/
+def execCallRt (F : RtFuns) (ρ : Name → Rt) (lhs : List Name) (f : Name) (args : List Expr)
+    (kw : List (Name × Expr)) : Name → Rt :=
+  let rs := F f (rtEvalL F ρ args) (rtEvalK F ρ kw)
+  match lhs with
+  | [] => ρ
+  | [x] => fun y => if y = x then (match rs with | [r] => r | _ => .none) else ρ y
+  | _ => if rs.length = lhs.length then assignZip ρ lhs rs else ρ
+
 end Dagrt.Kinds
